@@ -284,7 +284,9 @@ func init() {
 					cmd.LockKey = vRId(h.key)
 					cmd.Flag = 0
 					cmd.Timeout = 0
-					cmd.TimeoutFlag = 0
+					// timeout-flag bits that mean nothing to a request granted at once (minute unit of a zero timeout, log-on-timeout, keep the
+					// re-check count): the journal does not store them and the compaction's keep-rule must not be impressed by them
+					cmd.TimeoutFlag = []uint16{0, 0, 0, 0x0040, 0x0800, 0x2000, 0x0840}[(h.lockId+h.key)%7]
 					if ev.kind == 1 {
 						cmd.Flag = protocol.LOCK_FLAG_UPDATE_WHEN_LOCKED
 						need := T - ev.t + 2
